@@ -13,7 +13,7 @@ TAG_OWNER = {
     "route": "C01", "alloc": "C05", "time": "C12", "quiet:more": "C13", "wire:abandon": "C13", "wire": "C02",
     "wire:missing:abandon": "C13", "wire:missing": "C02", "effect:lost-route": "C01",
     "effect:abandon": ("C13", "C01"), "effect:scrub": ("C12", "C13"), "stream": "C10", "close": "C04", "closed": "C04",
-    "inv:Routing": ("C01", "C12"), "inv:NoLeak": "C13", "inv:UniqueIds": "C05", "inv:WireUnique": "C05", "inv:IdRange": "C05", "inv:Protected": "C05",
+    "inv:Routing": ("C01", "C12"), "inv:NoLeak": "C13", "inv:UniqueIds": "C05", "inv:WireUnique": "C05", "inv:IdRange": "C05", "inv:Protected": "C05", "inv:RoutedProtected": "C05",
     "inv:TimeoutExact": "C12", "inv:FailFast": "C04", "inv:StreamOK": "C10",
 }
 FAULT_EVENTS = ("SrvClose", "SrvGarbage", "DrvExit")
